@@ -7,7 +7,7 @@ use crate::check::constrain::constraint::Constraint;
 use crate::check::constrain::generate::env::Environment;
 use crate::check::constrain::generate::{gen_vec, generate, Constrained};
 use crate::check::context::clss::{BOOL, FLOAT, INT, RANGE, SLICE, STRING};
-use crate::check::context::function::python::CONTAINS;
+use crate::check::context::function::python::{CONTAINS, NEG, POS};
 use crate::check::context::function::python::{
     ADD, DIV, EQ, FDIV, GE, GEQ, LE, LEQ, MOD, MUL, NEQ, POW, SUB,
 };
@@ -62,7 +62,8 @@ pub fn gen_op(
         Node::Neq { left, right } => gen_magic(NEQ, ast, left, right, env, ctx, constr),
         Node::Eq { left, right } => gen_magic(EQ, ast, left, right, env, ctx, constr),
 
-        Node::AddU { expr } | Node::SubU { expr } => generate(expr, env, ctx, constr),
+        Node::AddU { expr } => gen_unary(POS, ast, expr, env, ctx, constr),
+        Node::SubU { expr } => gen_unary(NEG, ast, expr, env, ctx, constr),
         Node::Sqrt { expr } => {
             let ty = Type {
                 name: Name::from(FLOAT),
@@ -288,6 +289,33 @@ pub fn gen_magic(
         format!("{fun} operation").as_str(),
         &Expected::from(ast),
         &access(fun, left, right),
+        env,
+    );
+    Ok(res)
+}
+
+/// A unary operator is a call of the magic method of its operand, which gives the expression its type.
+fn gen_unary(
+    fun: &str,
+    ast: &AST,
+    expr: &AST,
+    env: &Environment,
+    ctx: &Context,
+    constr: &mut ConstrBuilder,
+) -> Constrained {
+    let res = generate(expr, env, ctx, constr)?;
+    let function = Function {
+        name: StringName::from(fun),
+        args: vec![Expected::from(expr)],
+    };
+    let access = Access {
+        entity: Box::new(Expected::from(expr)),
+        name: Box::new(Expected::new(expr.pos, &function)),
+    };
+    constr.add(
+        format!("{fun} operation").as_str(),
+        &Expected::from(ast),
+        &Expected::new(expr.pos, &access),
         env,
     );
     Ok(res)
